@@ -36,6 +36,19 @@ let parse_bins (s : string) : positive list =
       | _ -> failwith "bins")
     (split ',' s)
 
+(* c15bins: the rho_bin sequence of the case line as a function N -> Z, and the run-length encoding of a bin list
+   exactly as harness/phys/src/c15.rs rle_bins prints it *)
+let int_z i = if i = 0 then Z0 else if i > 0 then Zpos (int_pos i) else Zneg (int_pos (-i))
+let rle_bins (b : (int * int) list) : string =
+  let rec go acc = function
+    | [] -> List.rev acc
+    | (t, lo) :: rest ->
+        let rec run n = function (t', r') :: tl when t' = t && r' = lo + n -> run (n + 1) tl | tl -> (n, tl) in
+        let n, tl = run 1 rest in
+        go (Printf.sprintf "%d.%d.%d" t lo n :: acc) tl
+  in
+  if b = [] then "-" else String.concat "," (go [] b)
+
 let near_fun (ncls : int) (s : string) : n -> n -> bool =
   let m = Bytes.make (ncls * ncls) '\000' in
   List.iteri
@@ -69,6 +82,16 @@ let handle (line : string) : string =
         let bins_f p = btab.(n_int p) in
         match cluster_spacepoints_pub bins_f (near_fun ncls near) (ids pts) with
         | Ok (cl, rem) -> Printf.sprintf "ok %s | %s" (show_lists cl) (show_ids rem)
+        | Err _ -> "out-of-fuel"
+        | Panic -> "panic")
+  | [ "c15bins"; _point; rhoseq ] -> (
+      let seq = Array.of_list (List.map int_of_string (split ',' rhoseq)) in
+      let n = Array.length seq in
+      if n < 1 then "bad-case"
+      else
+        let rho_bin k = let i = n_int k in if i < n then int_z seq.(i) else Z0 in
+        match get_bins_res rho_bin (int_n (n - 1)) with
+        | Ok l -> "ok " ^ rle_bins (List.map (fun (t, r) -> (n_int t, n_int r)) l)
         | Err _ -> "out-of-fuel"
         | Panic -> "panic")
   | [ "c15lc"; classes; pts; near ] -> (
